@@ -48,6 +48,7 @@ def lm_info(name, layout=None):
     if n.startswith('MPIEXEC'):
         d = dict(env)
         d.update({'command': '/sim/bin/mpiexec', 'mpt': n == 'MPIEXEC_MPT',
+                  'rsh': False, 'dplace': '', 'ccmrun': '',
                   'omplace': '', 'use_rf': (layout or {}).get('use_rf', False),
                   'use_hf': (layout or {}).get('use_hf', False),
                   'can_os': False, 'mpi_version': '4.1',
@@ -55,9 +56,9 @@ def lm_info(name, layout=None):
         return d
     if n == 'SRUN':
         d = dict(env)
-        d.update({'command': '/sim/bin/srun', 'exact': (layout or {}).get(
-            'srun_exact', False), 'oversubscribe': False,
-            'version': (layout or {}).get('srun_version', '22.05')})
+        ver = (layout or {}).get('srun_version', '22.05')
+        d.update({'command': '/sim/bin/srun', 'version': ver,
+                  'vmajor': int(ver.split('.')[0])})
         return d
     if n in ('SSH', 'RSH'):
         d = dict(env)
